@@ -11,7 +11,8 @@ RULE = ("strings over the alphabet {a,b,/,*,?,.}: exhaustive up to a length boun
         "names sharing a prefix with the fs root and patterns over the same alphabet incl. `.`/`..`. "
         "non-trivial = at least two components, or a wildcard that matched something, or a pattern pair where the "
         "three cases disagree with plain equality")
-ASSUMPTIONS = ["glob(3)/fnmatch(3) of glibc are modelled for *, ?, literals and the leading-period rule only",
+ASSUMPTIONS = ["glob(3)/fnmatch(3) of glibc are modelled for *, ?, bracket expressions, backslash escapes, brace alternatives (GLOB_BRACE), "
+               "literals and the leading-period rule; character classes ([:alpha:]) and collating elements are not generated",
                "fs root strings contain no glob metacharacters"]
 TRUSTED = ["glibc glob(3) (modelled, validated by the correspondence run)"]
 EXHAUSTIVE = {"quick": True, "thorough": True}
